@@ -300,6 +300,36 @@ def ocaml_model():
     return exe
 
 
+def run_lines_resilient(cmd, lines, timeout=900, env=None, max_crashes=5):
+    """feed one case per line; the driver answers one line per case.  If it dies (sanitizer abort, signal),
+    the case it died on gets output None and the rest is re-run.  Returns (outputs, crashes[(index, stderr)])."""
+    outs = [None] * len(lines)
+    crashes = []
+    start = 0
+    while start < len(lines):
+        try:
+            p = run(cmd, input="\n".join(lines[start:]) + "\n", timeout=timeout, env=env)
+            rc, so, se = p.returncode, p.stdout, p.stderr
+        except subprocess.TimeoutExpired as e:
+            rc, so, se = -999, (e.stdout or b"").decode() if isinstance(e.stdout, bytes) else (e.stdout or ""), "timeout"
+        got = so.split("\n")
+        if got and got[-1] == "":
+            got = got[:-1]
+        complete = got if rc == 0 else got[:max(0, len(got) - (0 if so.endswith("\n") else 1))]
+        for k, l in enumerate(complete[:len(lines) - start]):
+            outs[start + k] = l
+        if rc == 0 and len(complete) >= len(lines) - start:
+            break
+        bad = start + len(complete)
+        if bad >= len(lines):
+            break
+        crashes.append((bad, "exit %s: %s" % (rc, se[-1500:])))
+        if len(crashes) >= max_crashes:
+            break
+        start = bad + 1
+    return outs, crashes
+
+
 # ------------------------------------------------------------------------------------------------
 # numbers
 # ------------------------------------------------------------------------------------------------
